@@ -82,7 +82,7 @@ type runner struct {
 
 func Run(r *corr.Run) {
 	r.SetRule("a case = one operation of a workload with every storage-call boundary crashed and faulted; non-trivial when the operation issued at least one write")
-	workloads := r.Pick(6, 200)
+	workloads := r.Pick(60, 3000)
 	for wl := 0; wl < workloads && r.TimeLeft(); wl++ {
 		runWorkload(r, wl)
 	}
